@@ -1,6 +1,5 @@
 import Mp.ProofsG
 import Mp.NullProofs
-import Mp.FactChecks
 /-! C19 — property theorems (proved in the imported modules; statements are checked there, axioms audited here). -/
 #print axioms Mp.propagate
 #print axioms Mp.missing_marked_key
@@ -12,4 +11,3 @@ import Mp.FactChecks
 #print axioms Mp.isNull_table
 #print axioms Mp.isEmpty_table
 #print axioms Mp.null_predicates_reject_arguments
-#print axioms Mp.FactChecks.isNil_kinds
